@@ -263,6 +263,8 @@ def patterns_from_query(q):
     """decode fld="pat" OR fld="pat" ... (patterns consist of hex digits, '.', ':' and '*')"""
     pats = _PAT_RE.findall(q)
     rebuilt = " OR ".join(f'fld="{p}"' for p in pats)
+    if q == "(" + rebuilt + ")":  # grouping of the OR is a spelling choice, not a difference
+        q = rebuilt
     if rebuilt != q:
         return None
     return [p.replace("\\\\", "\\") for p in pats]
